@@ -398,21 +398,34 @@ def plan(ctx: Ctx) -> list[dict]:
             edits(b, 1, True, 4)
     else:
         for w in (1, 2, 3):
+            regions(w, 1, 1)
+            regions(w, 2, 1 if w < 3 else 5)
+        regions(2, 3, 4)
+        for w in (1, 2):
             for rad in radix_tuples(w):
                 single(rad, 'full', 'full' if w == 1 else 'grid', 'all')
-        for rad in radix_tuples(4, 64):
-            single(rad, 'full', 'gen', 'auto', 4)
-        for rad in ((2,) * 5, (2,) * 6, (2, 2, 3, 2, 2)):
-            single(rad, 'core', 'gen', 'few')
+        for rad in radix_tuples(3):
+            single(rad, 'full', 'grid' if rad in QUICK_FULL_W3 else 'gen',
+                   'all')
+        for b in range(3):
+            edits(b, 1, False, 8)
         for w in (1, 2):
             for rad in radix_tuples(w):
                 seq(rad, 2, 'full' if w == 1 else 'core', 'grid', False,
                     'all', 4)
-                seq(rad, 3, 'core', 'gen', False, 'few', 6)
         for rad in radix_tuples(3):
             seq(rad, 2, 'core', 'gen', True, 'few', 9)
+        for rad in radix_tuples(2):
+            seq(rad, 3, 'core', 'gen', False, 'few', 6)
         for rad in radix_tuples(3):
             seq(rad, 3, 'rot', 'gen', True, 'few', 9, 2)
+        regions(3, 3, 15)
+        for rad in radix_tuples(4, 64):
+            single(rad, 'full', 'gen', 'auto', 4)
+        for rad in ((2,) * 5, (2,) * 6, (2, 2, 3, 2, 2)):
+            single(rad, 'core', 'gen', 'few')
+        for b in range(3):
+            edits(b, 2, True, 40)
         for rad in THOROUGH_SEQ3_W3:
             seq(rad, 3, 'rot', 'gen', True, 'few', 15)
         for rad in radix_tuples(4, 64):
@@ -421,12 +434,6 @@ def plan(ctx: Ctx) -> list[dict]:
             seq(rad, 2, 'rot', 'gen', True, 'few', 16)
         for rad in ((2,) * 5, (2,) * 6):
             seq(rad, 2, 'rot', 'gen', True, 'few', 12, 2)
-        for b in range(3):
-            edits(b, 2, True, 40)
-        for w in (1, 2, 3):
-            regions(w, 1, 1)
-            regions(w, 2, 1 if w < 3 else 5)
-            regions(w, 3, 1 if w == 1 else 4 if w == 2 else 15)
         regions(4, 1, 4)
         regions(4, 2, 64)
     return jobs
@@ -441,7 +448,7 @@ def run(ctx: Ctx) -> None:
         'structural edits themselves are judged by C04; here only the '
         'simulation/parameter views of the post-edit state are judged',
     ]
-    budget = 65.0 if ctx.quick else 1500.0
+    budget = 60.0 if ctx.quick else 1500.0
     deadline = ctx.t0 + budget
     jobs = plan(ctx)
     for j in jobs:
@@ -456,7 +463,7 @@ def run(ctx: Ctx) -> None:
     done_jobs = 0
     unfinished: list = []
     viol: list = []
-    for r in pmap(_dispatch, jobs, procs=ctx.procs, deadline=deadline + 20):
+    for r in pmap(_dispatch, jobs, procs=ctx.procs, deadline=deadline + 10):
         done_jobs += 1
         ctx.cov['evaluations'] += r['n']
         ctx.cov['distinct_nontrivial'] += r['nontriv']
